@@ -122,6 +122,12 @@ func genFramesD(o hx.Opts, emit func(string), r *hx.Rand) {
 	line(1, "H", trail)
 	line(1, "H", dup)
 	line(1, "H", warnChain)
+	// fragments of a message that announces 100000 bytes: refused at the first header
+	var hugeD [][]byte
+	for i := 0; i < 8; i++ {
+		hugeD = append(hugeD, rec13(22, 0, 1000+i, hsFrag(11, 100000, 7, i*12000, make([]byte, 12000))))
+	}
+	line(1, "H,H", hugeD)
 	line(1, "H,H", [][]byte{rec13(22, 0, 1, shd), rec13(22, 0, 2, shd)})
 	line(1, "H", [][]byte{rec13(22, 0, 1, hsFrag(20, 8, 0, 0, []byte{1, 2, 3, 4})), rec13(22, 0, 2, hsFrag(20, 8, 0, 4, []byte{5, 6, 7, 8}))})
 	var many [][]byte
@@ -137,7 +143,7 @@ func genFramesD(o hx.Opts, emit func(string), r *hx.Rand) {
 	line(1, "H", warn)
 	n := 1200 * o.Scale
 	if o.Tier == "thorough" {
-		n = 120000 * o.Scale
+		n = 40000 * o.Scale
 	}
 	for i := 0; i < n; i++ {
 		var ops []string
